@@ -11,7 +11,7 @@ from vf.gen import schemes as S
 
 AXES = {
     "nds": [2, 1, 3],
-    "axes": ["overlap", "identical", "disjoint", "near", "square"],
+    "axes": ["overlap", "identical", "disjoint", "near", "square", "descending"],
     "link": [None, True, False],
     "indexdep": ["none", "all", "mixed"],
     "weights": ["none", "ds_all", "ds_first", "ds_last", "model_global", "model_both"],
@@ -39,6 +39,7 @@ GLOBAL_AXES = {
     "overlap": [[1, 2, 3], [2, 3, 4], [3, 4, 5], [1, 3, 5]],
     "disjoint": [[1, 2, 3], [4, 5, 6], [7, 8], [9, 10, 11]],
     "near": [[1, 2, 3], [1.4, 2.4, 3.7], [0.9, 2.0, 4.2], [1, 3, 5]],
+    "descending": [[3, 2, 1], [4, 3, 2], [5, 3, 4], [5, 3, 1]],  # global axes need not be sorted
     "square": [[1, 2, 3, 4, 5, 6], [2, 3, 4, 5, 6], [1, 2, 3, 4, 5, 6, 7], [1, 2, 3, 4, 5, 6, 7, 8]],  # n_model == n_global
 }
 N_MODEL = [6, 5, 7, 8]
@@ -47,6 +48,8 @@ N_MODEL = [6, 5, 7, 8]
 def make_spec(o, variant=1, seed=0):
     o = {**DEFAULT, **o}
     n = o["nds"]
+    if o["axes"] == "descending" and (o["penalty"] == "yes" or o["weights"] in ("model_global", "model_both")):
+        return None  # interval -> index-range items are only defined for increasing axes (C08's domain)
     labels = LABEL_SETS[o["labels"]][:n]
     idx = {"none": (False, False), "all": (True, True), "mixed": (False, True)}[o["indexdep"]]
     mcs = {
